@@ -686,7 +686,7 @@ theorem split_at_search (cs : List Container) (key : Nat) (hs : SortedLt (cs.map
       rintro d (rfl | hd)
       · exact h
       · exact this.1 d hd
-    · simp only [List.takeWhile_cons, h, decide_false, List.length_nil, List.take_zero, List.drop_zero]
+    · simp only [List.takeWhile_cons, h, decide_false]
       refine ⟨by simp, ?_⟩
       intro d hd
       have hs2 : SortedLt (c.key :: cs.map (·.key)) := hs
@@ -758,7 +758,7 @@ theorem advanceToRest_spec (K : CKernel) (it : Iter) (hi : it.Inv) (n : Nat) (hf
             List.filter_append]
           rw [hdrop_pre]
           refine ⟨?_, ⟨by simp [SortedLt], by simp, by simp, by simp, by simp, by simp, by simp⟩⟩
-          simp only [List.nil_append, List.append_nil]
+          simp only [List.nil_append]
           symm; apply filterGE_drop
           intro x hx; have := hback_hi b hb x hx; omega
   | some c =>
